@@ -32,7 +32,7 @@ _COMMON_REAL = ["dagrt.codegen.fortran.CodeGenerator (whole pipeline)", "dagrt.c
 META = {
  "C03": {
     "level": "exploration",
-    "quick_runs": 320,
+    "quick_runs": 1200,
     "block": 4,
     "block_limit": 1500,
     "thorough_budget_s": 1200,
@@ -55,7 +55,7 @@ META = {
  },
  "C12": {
     "level": "exploration",
-    "quick_runs": 320,
+    "quick_runs": 900,
     "block": 4,
     "block_limit": 1500,
     "thorough_budget_s": 1200,
